@@ -23,6 +23,8 @@ def letter_name(x):
         return "s%d" % x["code"]
     if x["l"] == "code":
         return "c%d" % x["code"]
+    if x["l"] == "hv":
+        return "hv%d" % x["code"]
     return x["l"]
 
 
